@@ -116,7 +116,7 @@ func init() {
 			{Engine: "A", Scenario: "general", Quick: 12, Thorough: 150},
 			{Engine: "A", Scenario: "load", Quick: 6, Thorough: 60},
 		},
-		Rule:       "seeded live-cluster runs through membership changes (1->2->3 voters and back, non-voters present, leader demoting / removing itself) with partitions, stalls and crashes; at every leader commit advance the voters of its latest configuration holding the entry inside their durable frontier (flush events) are counted; non-trivial if at least 100 commit advances were checked under at least 2 different voter-set sizes; distinct = distinct abstract trace",
+		Rule: "seeded live-cluster runs through membership changes (1->2->3 voters and back, non-voters present, leader demoting / removing itself) with partitions, stalls and crashes; at every leader commit advance the voters of its latest configuration holding the entry inside their durable frontier (flush events) are counted; non-trivial if at least 100 commit advances were checked under at least 2 different voter-set sizes; distinct = distinct abstract trace",
 		Nontrivial: func(st map[string]int64) bool {
 			sizes := 0
 			for k, v := range st {
@@ -164,7 +164,7 @@ func init() {
 		Plan: []planEntry{
 			{Engine: "A", Scenario: "member", Quick: 36, Thorough: 450},
 		},
-		Rule:       "seeded live-cluster runs with membership churn, timeout-now requests injected at wire level at arbitrary nodes (incl. non-voters and nodes being promoted / demoted), leader self-demotion / removal under load; non-trivial if at least 3 membership actions were started and at least one timeout-now was delivered; distinct = distinct abstract trace",
+		Rule: "seeded live-cluster runs with membership churn, timeout-now requests injected at wire level at arbitrary nodes (incl. non-voters and nodes being promoted / demoted), leader self-demotion / removal under load; non-trivial if at least 3 membership actions were started and at least one timeout-now was delivered; distinct = distinct abstract trace",
 		Nontrivial: func(st map[string]int64) bool {
 			var acts, tn int64
 			for k, v := range st {
@@ -224,5 +224,30 @@ func init() {
 		Counters:    []string{"status-reports", "status-report-pairs", "steps", "commit-advances", "truncations", "log-resets", "compactions", "config-changes"},
 		Prefixes:    []string{"snapshot-installs:"},
 		Assumptions: stdAssumptions,
+	}
+
+	properties["C13"] = propSpec{
+		Level: "exploration",
+		Plan: []planEntry{
+			{Engine: "C", Scenario: "model", Params: "programs=250,ops=60", Quick: 8, Thorough: 120},
+			{Engine: "C", Scenario: "model", Params: "programs=60,ops=60", Quick: 3, Thorough: 30, Race: true},
+		},
+		Rule:     "seeded operation programs on the real log package (append with sizes 0 / 1 / exact fit / fit-1 / fit+1 / beyond the segment, commit, commitN, removeLTE / removeGTE at boundary-1 / boundary / boundary+1 / below prev / above last, reset, close+reopen, views read by concurrent goroutines while the writer appends; segment sizes 1-16 KiB) compared after every operation with an in-memory reference sequence (bounds, contains, Get of every index, GetN over random cross-segment ranges, CanLTE predicted from segment file names); a program is non-trivial if its log spanned at least 2 segment files; distinct = distinct operation sequence; race builds repeat it under the race detector (implies checkptr)",
+		MinQuick: 500, MinThorough: 5000,
+		Prefixes:     []string{"op:"},
+		Counters:     []string{"race-runs"},
+		SampleTopics: []string{"program"},
+		Assumptions:  []string{"the reference model is the specification: an abstract sequence with a prev index", "views are used as documented (invalidated by RemoveLTE / RemoveGTE / Close)"},
+	}
+	properties["C14"] = propSpec{
+		Level: "fault_enumeration",
+		Plan: []planEntry{
+			{Engine: "C", Scenario: "crash", Params: "programs=50,ops=50", Quick: 8, Thorough: 160},
+		},
+		Rule:     "the same seeded operation programs; at EVERY hook point inside the log package operations (after each append, between and after the two flushes of a segment sync, after the header is lowered in removeGTE, around roll-over, after each file removal / creation in removeLTE / removeGTE / reset, after truncate / write / sync of segment creation) two kinds of crash images are built and reopened with log.Open: the kill image (files as they are) and power-loss images (content of each file at its last completed msync plus a subset of the 4 KiB pages dirtied since: all subsets up to 6 dirty pages, otherwise none / each single / all-but-one / 16 random); each image must open, hold only entries as appended (pre- or post-state of the interrupted operation) and every entry covered by the last completed commit unless removed since; a program is non-trivial if it created at least 2 segment files; distinct = distinct operation sequence",
+		MinQuick: 200, MinThorough: 4000,
+		Prefixes:     []string{"op:images", "point:"},
+		SampleTopics: []string{"program"},
+		Assumptions:  []string{"directory operations (create, remove) are durable when they return", "power loss is modelled at 4 KiB page granularity on top of the last completed msync of each file", "kill model: every write reaches the file"},
 	}
 }
